@@ -26,6 +26,13 @@ def gen_stv_cases(rng, n, rules_=("STV", "STV", "STV", "IRV", "SequentialRCV"), 
             ncand = len(names)
             m = rng.randint(1, ncand)
             fam = "random"
+            if ncand >= 6:
+                # the model's Q arithmetic is unreduced: denominators near 10^6 compounded over six or
+                # more fractional transfers make one model run take minutes (the implementation is
+                # unaffected); such weights stay in the profiles with at most five candidates
+                for b in jp["ballots"]:
+                    if b["w"] in gen.W_FINE:
+                        b["w"] = rng.choice(gen.W_RAT)
         rule = rng.choice(rules_)
         cfg = {"quota": rng.choice(quotas), "tiebreak": rng.choice(tiebreaks)}
         if rule != "IRV":
